@@ -228,7 +228,7 @@ pub fn expect_nvr(t: &Tmpl, val: i16, env: &mut Env) -> NVr {
 
 // ------------------------------------------------------------ pair rules
 
-#[derive(Clone, Copy, Debug, PartialEq, Eq)]
+#[derive(Clone, Copy, Debug, PartialEq, Eq, Hash)]
 pub struct Rule {
     pub t1: u8,
     pub t2: u8,
